@@ -9,6 +9,8 @@
                the sandbox directory), if the link was created and asked for
      scan    : the entry core.Scan (portable mode) produced for that link
      created : whether core.Transition (portable mode) created the link
+     nested  : what core.Transition did when the link arrives inside a new
+               directory, one and two levels deep (created? problem recorded?)
    Verdict bits: 1 = model <> implementation (normalize, scan entry, creation
    decision, or the lexical resolution <> the kernel's); 2 = the
    implementation's outputs fail check_C16 (an accepted link leaves the root,
@@ -18,9 +20,15 @@ From Coq.Strings Require Import Byte.
 Import ListNotations.
 From Mv Require Import Common.Bytes Common.Str Model.Symlink.
 
+(* what core.Transition (portable mode) did when asked to create a NEW
+   DIRECTORY holding the link: one level (dir/k) and two levels (dir/s/k) below
+   the directory that holds the case's own link; for each: does the link exist
+   afterwards, was a problem recorded for its path *)
+Inductive nobs := NN | NO (created1 problem1 created2 problem2 : bool).
+
 Definition scase :=
   (str * str * (sl_err + str) * list str * option (list str)
-   * option link_entry * option bool)%type.
+   * option link_entry * option bool * nobs)%type.
 
 (* Short constructors printed by the Go harness. Literals dominate the time
    Coq needs to read a case file, so repeated strings are abbreviated:
@@ -38,13 +46,13 @@ Definition NK : option (list str) := None.
    contain '/'); one literal instead of one per name *)
 Definition KP (up : nat) (p : str) : option (list str) := KL up (split_on c_slash p).
 Definition C (path target : str) (o : outc) (k : option (list str)) (s : scanc)
-           (cr : option bool) : scase :=
+           (cr : option bool) (nb : nobs) : scase :=
   (path, target,
    match o with Same => inr target | Ok t => inr t | Er e => inl e end,
    BASE, k,
    match s with NoScan => None | SLs => Some (LESymbolicLink target)
               | SLt t => Some (LESymbolicLink t) | PB => Some LEProblematic end,
-   cr).
+   cr, nb).
 
 (* Exhaustive cases carry no literals at all: the target is a token sequence
    ([tn] = a name "n", [td] = ".", [tu] = "..", [te] = the empty component),
@@ -79,8 +87,20 @@ Fixpoint ndirs (d : nat) : str :=
   match d with O => [] | S d' => "n"%byte :: c_slash :: ndirs d' end.
 Definition KN (up cnt : nat) : option (list str) := KL up (repeat (B "n") cnt).
 Definition X (d : nat) (t : tk) (o : outc) (k : option (list str)) (s : scanc)
-           (cr : option bool) : scase :=
-  C (ndirs d ++ "L"%byte :: tk_letters t) (join_slash (tk_comps t)) o k s cr.
+           (cr : option bool) (nb : nobs) : scase :=
+  C (ndirs d ++ "L"%byte :: tk_letters t) (join_slash (tk_comps t)) o k s cr nb.
+
+(* the directory the nested transitions create next to the case's link "L.."
+   ("D.." for one level, "E.." for two), and the nested link paths *)
+Definition nest_dir (tag : byte) (path : str) : str :=
+  join_slash (link_dirs path ++ [tag :: last (split_on c_slash path) []]).
+Definition nest_tree (levels : nat) (target : str) : ctree :=
+  match levels with
+  | 1%nat => CDir [(B "k", CLink target)]
+  | _ => CDir [(B "s", CDir [(B "k", CLink target)])]
+  end.
+
+Definition is_nil_l {A : Type} (l : list A) : bool := match l with [] => true | _ => false end.
 
 Definition out_eqb (a b : sl_err + str) : bool :=
   match a, b with
@@ -104,7 +124,7 @@ Fixpoint strs_eqb (a b : list str) : bool :=
   end.
 
 Definition symlink_verdict (fixed : bool) (c : scase) : nat :=
-  let '(path, target, out, base, kernel, scan, created) := c in
+  let '(path, target, out, base, kernel, scan, created, nb) := c in
   let bad := negb (wf_path path) in
   let m_out := normalize_portable fixed path target in
   let m_loc := rev (resolve_loc (rev (base ++ link_dirs path)) (split_on c_slash target)) in
@@ -112,7 +132,17 @@ Definition symlink_verdict (fixed : bool) (c : scase) : nat :=
       out_eqb m_out out
       && match kernel with Some loc => strs_eqb m_loc loc | None => true end
       && match scan with Some e => entry_eqb (scan_link fixed true path target) e | None => true end
-      && match created with Some b => Bool.eqb (create_allowed fixed SLPortable path target) b | None => true end in
+      && match created with Some b => Bool.eqb (create_allowed fixed SLPortable path target) b | None => true end
+      && match nb with
+         | NN => true
+         | NO c1 p1 c2 p2 =>
+             let d1 := nest_dir "D"%byte path in
+             let d2 := nest_dir "E"%byte path in
+             Bool.eqb (negb (is_nil_l (created_links fixed SLPortable d1 (nest_tree 1 target)))) c1
+             && Bool.eqb (negb (is_nil_l (link_problems fixed SLPortable d1 (nest_tree 1 target)))) p1
+             && Bool.eqb (negb (is_nil_l (created_links fixed SLPortable d2 (nest_tree 2 target)))) c2
+             && Bool.eqb (negb (is_nil_l (link_problems fixed SLPortable d2 (nest_tree 2 target)))) p2
+         end in
   let prop :=
       check_C16 path target out
       && check_C16_kernel base out kernel
@@ -124,6 +154,17 @@ Definition symlink_verdict (fixed : bool) (c : scase) : nat :=
       && match created with
          | Some true => check_C16 path target (inr target) && check_C16_kernel base (inr target) kernel
          | _ => true
+         end
+      (* a link created inside a new directory must be acceptable at its own
+         path (depth includes the new directory levels); a link that is not
+         created must have a problem recorded *)
+      && match nb with
+         | NN => true
+         | NO c1 p1 c2 p2 =>
+             let l1 := join_path (nest_dir "D"%byte path) (B "k") in
+             let l2 := join_path (join_path (nest_dir "E"%byte path) (B "s")) (B "k") in
+             (if c1 then check_C16 l1 target (inr target) else p1)
+             && (if c2 then check_C16 l2 target (inr target) else p2)
          end in
   (if corr then 0 else 1) + (if prop then 0 else 2) + (if bad then 8 else 0).
 
